@@ -121,10 +121,10 @@ def tasks(tier, seed, selftest=False):
     small, mid = paths[:120], paths[120:180 if q else 210]
     for i in range(0, len(small), 12):
         T.append({"prop": PROP, "family": "-", "label": "models/small", "timebox": 15, "seed": seed,
-                  "params": {"mode": "models", "models": small[i:i + 12], "strats": ["h1", "h2", "h3"], "max_nodes": 6 if q else 10}})
+                  "params": {"mode": "models", "models": small[i:i + 12], "strats": ["h1", "h2", "h3", "h4"], "max_nodes": 6 if q else 10}})
     for i in range(0, len(mid), 3):
         T.append({"prop": PROP, "family": "-", "label": "models/medium-large", "timebox": 20 if q else 150, "seed": seed,
-                  "params": {"mode": "models", "models": mid[i:i + 3], "strats": ["h1"] if q else ["h1", "h2", "h3"], "max_nodes": 3 if q else 6}})
+                  "params": {"mode": "models", "models": mid[i:i + 3], "strats": ["h1", "h3"] if q else ["h1", "h2", "h3"], "max_nodes": 12 if q else 18}})
     return T
 
 
@@ -133,6 +133,6 @@ def main(tier, seed, t0, selftest=False):
     return common.finish(PROP, tier, seed, "model_checking", results, t0, selftest=selftest, functions=FUNCTIONS,
                          bounds={"history": "quick: K=1 on U2 exhaustive, K=2 on U2 time-boxed 12 s per skeleton, K=1 on D3 time-boxed; thorough: K<=2 on U2 to exhaustion, K=3 on U2 / K=2 on D3 / K=1 on U3 time-boxed",
                                  "limits": f"-1(None)..{hist.MAXLIM}", "start nodes": f"None or any existing id <= {hist.MAXNODE}",
-                                 "published models": "three canned histories (bfs(3) + minimal-space expansion from a stub + stack-limited dfs; size-limited attractor-seed expansion + level-limited bfs; two single-node expansions + size-limited block expansion without source shortcuts) on 120 small + 60 medium models (quick) / all 210 (thorough); afterwards every expanded node: motifs are trap spaces, maximal, percolate to the child, none missing (z3 over the validated Petri net / all states); no duplicate spaces; unexpanded nodes have no successors",
+                                 "published models": "four canned histories (single-node expansions youngest/oldest stub first; bfs(3) + minimal-space expansion from a stub + stack-limited dfs; size-limited attractor-seed expansion + level-limited bfs; two single-node expansions + size-limited block expansion without source shortcuts) on 120 small + 60 medium models (quick) / all 210 (thorough); afterwards every expanded node: motifs are trap spaces, maximal, percolate to the child, none missing (z3 over the validated Petri net / all states); no duplicate spaces; unexpanded nodes have no successors",
                                  "outside": "n>3, K>3, limits > 7 for the symbolic families; on the models only the final state of each history is decided, and the comparison with a fresh full expansion is not made"},
                          assumptions=["contract stubs of DESIGN.md §8 validated on every representative"])
